@@ -80,6 +80,9 @@ func noReturnBlock(b *ssa.BasicBlock) bool {
 		case *ssa.Panic:
 			return true
 		case *ssa.Call:
+			if mn := methodName(x.Common()); strings.HasPrefix(mn, "Panic") || strings.HasPrefix(mn, "Fatal") {
+				return true
+			}
 			n := render(x.Call.Value)
 			if strings.Contains(n, "log.Panic") || strings.Contains(n, "log.Fatal") || strings.HasSuffix(n, "global:Panicf") || strings.HasSuffix(n, "global:Panicln") || strings.HasSuffix(n, "global:Fatalf") {
 				return true
